@@ -73,6 +73,8 @@ def show_tok(t):
 
 
 def show_args(a):
+    if len(a) > 14:
+        return "[" + ", ".join(repr(show_tok(t)) for t in a[:12]) + ", .. %d tokens in all]" % len(a)
     return "[" + ", ".join(repr(show_tok(t)) for t in a) + "]"
 
 
@@ -109,8 +111,8 @@ def out_class(o):
 def gen(chk, mode, shapes, maxlen, tier, tag, workers=8, timeout=3000):
     cfg = os.path.join(chk.work, "CliGen_%s.cfg" % tag)
     with open(cfg, "w") as f:
-        f.write('CONSTANTS\n  Mode = "%s"\n  MaxLen = %d\n  ShapeSel = {%s}\n  Tier = "%s"\n  MaxPerm = 4\n' % (
-            mode, maxlen, ", ".join(map(str, shapes)), tier))
+        f.write('CONSTANTS\n  Mode = "%s"\n  MaxLen = %d\n  ShapeSel = {%s}\n  Tier = "%s"\n  GridTier = "%s"\n  MaxPerm = 4\n' % (
+            mode, maxlen, ", ".join(map(str, shapes)), tier, "mini" if tier == "quick" else "quick"))
         f.write("INIT Init\nNEXT Next\nINVARIANTS AtEnd Progress\n")
     res = core.run_tlc("CliGen.tla", cfg, workers=workers, timeout=timeout, xmx="8g")
     core.tlc_must_pass(res, "CliGen " + tag)
@@ -141,23 +143,30 @@ def run_driver(chk, bindir, vecs, tag):
 
 
 def judge_with_tlc(chk, records, tag):
-    """records: [{s, a, out}] -> {index: admissible set} of the rejected ones."""
+    """records: [{s, a, out}] -> {index: admissible set} of the rejected ones.  Batches are judged by
+    up to 4 TLC processes (1 worker each) side by side."""
+    from concurrent.futures import ThreadPoolExecutor
     bad = {}
-    B = 4000
-    for k in range(0, len(records), B):
+    B = 1500
+
+    def one(k):
         part = records[k:k + B]
         path = os.path.join(chk.work, "judge_%s_%d.ndjson" % (tag, k))
         core.write_ndjson(path, part)
         res = core.run_tlc("CliJudge.tla", "CliJudge.cfg", workers=1, env={"TRACE": path},
-                           timeout=3000, xmx="6g", xss="512m")
+                           timeout=3000, xmx="4g", xss="512m",
+                           metadir=os.path.join(core.WORK, "tlc-meta", "CliJudge-%d-%s-%d" % (os.getpid(), tag, k)))
         core.tlc_must_pass(res, "CliJudge")
         j = res.printed("JUDGED")
         if len(j) != 1 or j[0]["n"] != len(part):
             raise core.ToolError("judge did not report on all %d records: %s" % (len(part), res.out[-1500:]))
-        chk.add_tlc(res)
-        adm = {b["i"]: b["adm"] for b in res.printed("BAD")}
-        for i in j[0]["bad"]:
-            bad[k + i - 1] = adm.get(i, [])
+        adm = {x["i"]: x["adm"] for x in res.printed("BAD")}
+        return k, res, {k + i - 1: adm.get(i, []) for i in j[0]["bad"]}
+
+    with ThreadPoolExecutor(max_workers=4) as ex:
+        for k, res, b2 in ex.map(one, range(0, len(records), B)):
+            chk.add_tlc(res)
+            bad.update(b2)
     return bad
 
 
@@ -171,7 +180,7 @@ def model_selfcheck(chk, tier):
     maxlen = 2 if tier == "quick" else 3
     cfg = os.path.join(chk.work, "CliGen_selfcheck.cfg")
     with open(cfg, "w") as f:
-        f.write('CONSTANTS\n  Mode = "lists"\n  MaxLen = %d\n  ShapeSel = {%s}\n  Tier = "%s"\n  MaxPerm = 4\n' % (
+        f.write('CONSTANTS\n  Mode = "lists"\n  MaxLen = %d\n  ShapeSel = {%s}\n  Tier = "%s"\n  GridTier = "mini"\n  MaxPerm = 4\n' % (
             maxlen, ", ".join(map(str, range(1, NS + 1))), tier))
         f.write("INIT Init\nNEXT Next\nINVARIANTS FastIsFull Progress\n")
     res = core.run_tlc("CliGen.tla", cfg, workers=8, timeout=1800, xmx="6g")
@@ -244,15 +253,16 @@ def judge_inputs(rng, tier, renders):
     """-> list of {s, a, why}"""
     out = []
     longs = long_tokens(tier)
-    n_rand = 60 if tier == "quick" else 600
+    n_rand = 40 if tier == "quick" else 600
     for s in range(1, NS + 1):
         shape = SH.SHAPES[s - 1]
         alpha = [b(t) for t in SH.alphabet(shape)]
         litl = [b(t) for t in SH.all_literals(shape)]
         # every special / long token alone, after every literal, and in front
-        for t in SPECIAL + longs:
+        for n, t in enumerate(SPECIAL + longs):
             out.append({"s": s, "a": [t], "why": "single"})
-            for l in litl:
+            # quick: each special token after two of the literals (rotating), thorough: after every literal
+            for l in (litl if tier != "quick" else [litl[(n + j) % len(litl)] for j in range(min(2, len(litl)))]):
                 out.append({"s": s, "a": [l, t], "why": "after-literal"})
             out.append({"s": s, "a": [t, b("-h")], "why": "before-help"})
         # long lines: every option literal of the top level 60 times with a value
@@ -436,14 +446,19 @@ def run(tier):
         core.log("%s: %d vectors, real parser run and compared (%.0fs)" % (tag, len(vecs), time.time() - chk.t0))
 
     bounds = {}
+    main = [x for x in shapes if x < SH.GRID_FROM]
+    grid = [x for x in shapes if x >= SH.GRID_FROM]
     if tier == "quick":
-        batch("lists", shapes, maxlen, "lists")
-        bounds = {SH.SHAPES[s - 1]["name"]: maxlen for s in shapes}
+        batch("lists", main, maxlen, "lists")
+        batch("lists", grid, maxlen - 1, "lists_grid")
+        bounds = {SH.SHAPES[x - 1]["name"]: (maxlen if x < SH.GRID_FROM else maxlen - 1) for x in shapes}
     else:
-        for s in shapes:
-            ml = maxlen + 1 if len(SH.alphabet(SH.SHAPES[s - 1])) <= 12 else maxlen
-            bounds[SH.SHAPES[s - 1]["name"]] = ml
-            batch("lists", [s], ml, "lists%d" % s)
+        for x in main:
+            ml = maxlen + 1 if len(SH.alphabet(SH.SHAPES[x - 1])) <= 10 else maxlen
+            bounds[SH.SHAPES[x - 1]["name"]] = ml
+            batch("lists", [x], ml, "lists%d" % x)
+        batch("lists", grid, maxlen - 1, "lists_grid")
+        bounds.update({SH.SHAPES[x - 1]["name"]: maxlen - 1 for x in grid})
     batch("render", shapes, maxlen, "render")
     n_lists, n_render = st["n"]["lists"], st["n"]["render"]
     nontrivial, drift, per_shape, arm_runs = st["nontrivial"], st["drift"], st["per_shape"], st["arm_runs"]
@@ -487,7 +502,8 @@ def run(tier):
                 "%d cause-buffer piece sequences (CliCause.tla) x 2 constructors. non-trivial = distinct (shape, admissible class, "
                 "observed class, length) with a non-empty list + distinct (shape, input class, observed class) of judged lists + "
                 "cause sequences longer than 100 bytes"
-                % ("%d" % maxlen if tier == "quick" else "%d (%d for alphabets of <= 12 tokens)" % (maxlen, maxlen + 1),
+                % ("%d (%d for the grid shapes)" % (maxlen, maxlen - 1) if tier == "quick"
+                   else "%d (%d for alphabets of <= 10 tokens, %d for the grid shapes)" % (maxlen, maxlen + 1, maxlen - 1),
                    NS, n_lists, n_render, len(recs), 300 if tier == "quick" else 131071, n_cause))
     chk.assumptions = [
         "arguments contain no NUL byte (they are NUL-terminated strings handed over by the start-up code)",
